@@ -548,15 +548,17 @@ def build_pair(prog, kinds, seed):
             kinds = [lead] + [k for k in kinds if k not in ("reorder-defs", "move-to-file")]
     files = dict(prog["files"])
     steps = []
+    index = []
     for i, k in enumerate(kinds):
-        st = apply_edit(prog, files, k, seed * 31 + i, first=(i == 0))
+        st = apply_edit(prog, files, k, seed * 31 + i, first=(not steps))
         if st is None:
             continue
         steps.append(st)
+        index.append(i)
         files = st.files
     if not steps:
         return None
-    return steps, files
+    return steps, files, index
 
 
 def pack_steps(steps):
@@ -695,6 +697,10 @@ def judge(chk, prog, steps, edited_files, res_a, res_b, reducible, case_extra=No
     case = {"lang": prog["lang"], "name": prog["name"], "origin": prog["origin"], "base_files": prog["files"], "edited_files": edited_files,
             "steps": pack_steps(steps), "runnable": bool(prog.get("runnable")), "main": prog.get("main"), "entry": prog.get("entry"),
             "argvecs": [list(a) for a in prog.get("argvecs", [])]}
+    if res_b.get("died") == "no-frontend-artefacts":
+        sig = f"{label_of(steps)}:all-results:empty-after-edit"
+        fails.append((sig, f"{prog['name']}: the base project has results, the edited one leaves no GIR / no result at all (and no error)", case))
+        return fails, None
     if res_b.get("died"):
         sig = f"{label_of(steps)}:analysis:died-after-edit:{res_b['died']}"
         fails.append((sig, f"{prog['name']}: the base project is analysed, the edited one dies: {res_b['died']} {res_b.get('died_msg', '')}", case))
@@ -760,8 +766,8 @@ def main():
         if built is None:
             chk.count("planned pairs whose edits were not applicable to the text", 1)
             continue
-        steps, files = built
-        pairs.append({"bi": bi, "steps": steps, "files": files, "kinds": kinds, "seed": seed})
+        steps, files, index = built
+        pairs.append({"bi": bi, "steps": steps, "files": files, "kinds": kinds, "seed": seed, "step_index": index})
     chk.count("base programs selected", len(bases))
     chk.count("pairs built", len(pairs))
     used = sorted({p["bi"] for p in pairs})
@@ -879,10 +885,14 @@ def main():
             continue
         prog = bases[p["bi"]]
         for k, st in enumerate(p["steps"]):
-            try:
-                built = build_pair(prog, [st.kind], p["seed"] * 7 + k)
-            except RecursionError:
-                built = None
+            if k == 0:
+                built = ([st], st.files)          # the first edit alone is exactly the pair's first step
+            else:
+                try:
+                    one = apply_edit(prog, dict(prog["files"]), st.kind, p["seed"] * 31 + p["step_index"][k], first=True)
+                except RecursionError:
+                    one = None
+                built = ([one], one.files) if one is not None else None
             if built is None:
                 continue
             jid = f"r{pi}_{k}"
